@@ -38,6 +38,10 @@ structure Env where
   /-- `false`: `addNodeInDocOrder` as written in the tree; `true`: with `proposed/C12-docnode-first.diff`
   (a document node that owns the first element of the list is put at the front) -/
   docNodeFirst : Bool := false
+  /-- `false`: the linear search as written in the tree; `true`: with `proposed/C12-multidoc-groups.diff`
+  (the search keeps the nodes of one document together: it skips foreign nodes until it reaches the run of
+  the node's document and stops at the end of that run) -/
+  groupAware : Bool := false
 
 inductive Order where
   | unknown | document | reverse
@@ -111,6 +115,24 @@ def indexPredicate (n1 n2 : NodeRef) : Bool :=
 def executionContextPredicate (env : Env) (n1 n2 : NodeRef) : Bool :=
   if documentPredicate n1 n2 then true else env.after n1 n2
 
+/-- `findInsertionPointLinearSearch` as in `proposed/C12-multidoc-groups.diff`; `found` is `fFoundOwner`;
+the predicate is only consulted for two non-document nodes of one document -/
+def findInsertionPointLinearSearchG (pred : NodeRef → NodeRef → Bool) (node : NodeRef) :
+    List NodeRef → Bool → Found
+  | [], _ => ⟨0, true⟩
+  | child :: rest, found =>
+    if child = node then ⟨0, false⟩
+    else if child.normOwner ≠ node.normOwner then
+      if found then ⟨0, true⟩
+      else
+        let r := findInsertionPointLinearSearchG pred node rest found
+        ⟨r.pos + 1, r.insert⟩
+    else if node.isDoc then ⟨0, true⟩
+    else if !child.isDoc && (pred node child = false) then ⟨0, true⟩
+    else
+      let r := findInsertionPointLinearSearchG pred node rest true
+      ⟨r.pos + 1, r.insert⟩
+
 def insertAt (l : List NodeRef) (pos : Nat) (n : NodeRef) : List NodeRef :=
   l.take pos ++ n :: l.drop pos
 
@@ -118,7 +140,9 @@ def insertAt (l : List NodeRef) (pos : Nat) (n : NodeRef) : List NodeRef :=
 def chooseSearch (env : Env) (node : NodeRef) (first last : NodeRef) (l : List NodeRef) : Found :=
   if env.indexed node.doc && (node.owner == some first.normOwner) then
     if first.normOwner = last.normOwner then findInsertionPointBinarySearch node l
+    else if env.groupAware then findInsertionPointLinearSearchG (fun a b => decide (a.idx > b.idx)) node l false
     else findInsertionPointLinearSearch indexPredicate node l
+  else if env.groupAware then findInsertionPointLinearSearchG env.after node l false
   else findInsertionPointLinearSearch (executionContextPredicate env) node l
 
 /-- `MutableNodeRefList::addNodeInDocOrder(node, executionContext)` for a non-null node on a list
@@ -184,5 +208,22 @@ an initially empty result; `setDocumentOrder()` at the end -/
 def union (env : Env) (operands : List (List NodeRef)) : NList :=
   let r := operands.foldl (fun acc o => addNodesInDocOrderMutable env acc ⟨o, .document⟩) NList.empty
   { r with order := .document }
+
+/-- `XPath::step` (XPath.cpp:2976-3034), the merging part: `results` are the node lists the recursive call
+delivers for the successive context nodes (each in document order); an empty one is skipped, the first
+non-empty one is swapped in, later ones are merged with `addNodesInDocOrder` + `setDocumentOrder()` -/
+def stepMerge (env : Env) (results : List (List NodeRef)) : NList :=
+  let q := results.foldl (fun (q : NList) mnl =>
+    if mnl.isEmpty then q
+    else if !q.nodes.isEmpty then { addNodesInDocOrderMutable env q ⟨mnl, .document⟩ with order := .document }
+    else ⟨mnl, .document⟩) ⟨[], .unknown⟩
+  if q.nodes.isEmpty then { q with order := .document } else q
+
+/-- `XPath::step`, the last step of a path: the axis result `subQueryResults` (reverse document order for a
+reverse axis) becomes the query result, reversed when it is flagged reverse -/
+def stepFinish (sub : NList) : NList :=
+  if sub.nodes.isEmpty then ⟨[], .document⟩
+  else if sub.order = .reverse then sub.reverse
+  else sub
 
 end XalanModel.C12
